@@ -6,6 +6,7 @@ use crate::core::*;
 use crate::props::edit::*;
 use serde_json::{json, Value};
 use std::collections::HashSet;
+use std::str::FromStr;
 
 fn s(x: &str) -> String {
     x.to_string()
@@ -78,6 +79,7 @@ pub fn c05_inits() -> Vec<Init> {
     .iter()
     .map(|t| Init::Text(s(t)))
     .chain([
+        Init::New,
         Init::BuiltStr(vec![]),
         Init::BuiltStr(vec![pm(&[("A", "1")]), pm(&[("B", "2")])]),
         Init::BuiltString(vec![pm(&[("A", "1")]), pm(&[]), pm(&[("B", "2")])]),
@@ -86,6 +88,38 @@ pub fn c05_inits() -> Vec<Init> {
 }
 
 const KEYS: [&str; 3] = ["A", "B", "C"];
+/// thorough: one more key with every punctuation class a field name may contain
+const KEYS_T: [&str; 4] = ["A", "B", "C", "X-y#1"];
+
+/// Initial documents from the document generator: every layout with at most one deviation (thorough: two on the smaller
+/// skeleton) - comments of every shape, colon spacing, continuation lines, indentation, separators, missing final newline.
+pub fn layout_inits(which: Which, t: Tier) -> Vec<Init> {
+    use crate::docgen::{menus, render, Skel};
+    use crate::kdev::kdev_shard;
+    let plans: Vec<(Skel, usize)> = match (which, t) {
+        (Which::C04, Tier::Quick) => vec![(Skel { paras: 2, fields: 2 }, 1)],
+        (Which::C04, Tier::Thorough) => vec![(Skel { paras: 2, fields: 2 }, 1), (Skel { paras: 1, fields: 2 }, 2)],
+        (Which::C05, Tier::Quick) => vec![(Skel { paras: 2, fields: 1 }, 1), (Skel { paras: 3, fields: 1 }, 1)],
+        (Which::C05, Tier::Thorough) => vec![(Skel { paras: 2, fields: 2 }, 1), (Skel { paras: 3, fields: 1 }, 1), (Skel { paras: 2, fields: 1 }, 2)],
+    };
+    let mut out = vec![];
+    let mut seen = HashSet::new();
+    for (sk, k) in plans {
+        let m = menus(sk);
+        let mut emit = |v: &[usize]| {
+            if let Some(d) = render(sk, v) {
+                if deb822_lossless::Deb822::from_str(&d.text).is_ok() && seen.insert(d.text.clone()) {
+                    out.push(Init::Text(d.text));
+                }
+            }
+        };
+        kdev_shard(&m, k, None, &mut emit);
+        for first in 0..m.len() {
+            kdev_shard(&m, k, Some(first), &mut emit);
+        }
+    }
+    out
+}
 
 fn field_ops(n_paras: usize, vals: &[&str], keys: &[&str]) -> Vec<Op> {
     let mut ops = vec![];
@@ -105,7 +139,7 @@ fn field_ops(n_paras: usize, vals: &[&str], keys: &[&str]) -> Vec<Op> {
         }
         for k in keys {
             for k2 in keys {
-                if k != k2 {
+                if k != k2 || *k == keys[0] {
                     ops.push(Op::Rename(p, s(k), s(k2)));
                 }
             }
@@ -127,6 +161,8 @@ fn para_ops(n_paras: usize) -> Vec<Op> {
         ops.push(Op::Set(p, s("A"), s("x")));
         ops.push(Op::Set(p, s("B"), s("x\ny")));
         ops.push(Op::Remove(p, s("A")));
+        ops.push(Op::Insert(p, s("C"), s("z")));
+        ops.push(Op::Rename(p, s("A"), s("C")));
     }
     ops
 }
@@ -152,6 +188,9 @@ pub struct EditProp(pub Which, pub std::sync::atomic::AtomicU64);
 
 struct Plan {
     inits: Vec<Init>,
+    /// inits[n_deep..] are the generated layouts, explored to `depth_layout` with the cache only
+    n_deep: usize,
+    depth_layout: usize,
     /// (init index, early handles, nocache)
     shards: Vec<(usize, bool, bool)>,
     depth_cached: usize,
@@ -161,7 +200,7 @@ struct Plan {
 
 impl EditProp {
     fn plan(&self, t: Tier) -> Plan {
-        let inits = match self.0 {
+        let mut inits = match self.0 {
             Which::C04 => c04_inits(),
             Which::C05 => c05_inits(),
         };
@@ -174,13 +213,21 @@ impl EditProp {
                 shards.push((i, true, true));
             }
         }
+        let n_deep = inits.len();
+        inits.extend(layout_inits(self.0, t));
+        for i in n_deep..inits.len() {
+            shards.push((i, false, false));
+            if self.0 == Which::C04 {
+                shards.push((i, true, false));
+            }
+        }
         let (depth_cached, depth_nocache) = match (self.0, t) {
             (Which::C04, Tier::Quick) => (3, 2),
             (Which::C04, Tier::Thorough) => (4, 2),
             (Which::C05, Tier::Quick) => (3, 2),
             (Which::C05, Tier::Thorough) => (5, 3),
         };
-        Plan { inits, shards, depth_cached, depth_nocache, max_states: t.pick(200_000, 3_000_000) }
+        Plan { inits, n_deep, depth_layout: t.pick(1, 2), shards, depth_cached, depth_nocache, max_states: t.pick(200_000, 3_000_000) }
     }
     fn ops_for(&self, t: Tier, init: &Init, hist: &[Op]) -> Vec<Op> {
         let n = n_paras_after(init, hist);
@@ -190,7 +237,10 @@ impl EditProp {
                     Tier::Quick => &["x", "x\ny", ":c\nd", "#h  "],
                     Tier::Thorough => &["x", "x\ny", "é  ", ":c\nd", "#h\ny"],
                 };
-                field_ops(n, vals, &KEYS)
+                field_ops(n, vals, match t {
+                    Tier::Quick => &KEYS[..],
+                    Tier::Thorough => &KEYS_T[..],
+                })
             }
             Which::C05 => para_ops(n),
         }
@@ -213,7 +263,7 @@ impl Prop for EditProp {
     }
     fn bounds(&self, t: Tier) -> Value {
         let p = self.plan(t);
-        json!({"initial_states": p.inits, "depth_cached": p.depth_cached, "depth_nocache": p.depth_nocache, "max_states_per_initial": p.max_states,
+        json!({"initial_states": p.inits[..p.n_deep].to_vec(), "generated_layout_initial_states": p.inits.len() - p.n_deep, "depth_layouts": p.depth_layout, "depth_cached": p.depth_cached, "depth_nocache": p.depth_nocache, "max_states_per_initial": p.max_states,
                "ops_example": self.ops_for(t, &p.inits[1], &[]).len()})
     }
     fn assumptions(&self) -> Vec<String> {
@@ -233,7 +283,13 @@ impl Prop for EditProp {
         if Live::build(&init).is_none() {
             return;
         }
-        let depth = if nocache { plan.depth_nocache } else { plan.depth_cached };
+        let depth = if ii >= plan.n_deep {
+            plan.depth_layout
+        } else if nocache {
+            plan.depth_nocache
+        } else {
+            plan.depth_cached
+        };
         let mut seen: HashSet<String> = HashSet::new();
         let root = EditCase { init: init.clone(), early, ops: vec![], nocache };
         let v = f(&root);
